@@ -144,7 +144,7 @@ class Ctx:
         out = self.path(name + ".ndjson")
         assert name not in self.names, f"job name {name} used twice"
         self.names.add(name)
-        h = run_harness(coll, driver, params, out, timeout=timeout)
+        h = run_harness(coll, driver, params, out, timeout=timeout, raw="raw" in flags)
         v = tlc_trace(spec_of(coll), out, self.path("meta-" + name))
         lines = None
         res = {"name": name, "coll": coll, "driver": driver, "params": params, "events": h["events"], "pairs": h["pairs"],
@@ -530,6 +530,9 @@ def key_scale_jobs(ctx, colls, rounds="ABC", deep=0, flags=(), sweeps=True):
             if r == "D" and not deep:
                 continue
             futs.append(ctx.submit(f"scale-{coll}-{r}", coll, "scale", {"rounds": r, "deep": deep, "seed": ctx.seed}, flags=flags, timeout=600))
+        # the mass-expiry deep run once more in an unoptimised build (recursion that optimisation hides)
+        if "D" in rounds and deep and kind_of(coll) == "keytree":
+            futs.append(ctx.submit(f"rawdeep-{coll}", coll, "scale", {"rounds": "D", "deep": 60000, "seed": ctx.seed}, flags=tuple(flags) + ("raw",), timeout=600))
         # clear sweep (round S; `deep` is the first population of a block of 45)
         for a in (((1, 46) if ctx.quick() else (1, 46, 91, 136, 181)) if sweeps else ()):
             futs.append(ctx.submit(f"sweep-{coll}-{a}", coll, "scale", {"rounds": "S", "deep": a, "seed": ctx.seed}, flags=flags))
